@@ -79,7 +79,7 @@ def settings_url_parse(url: str) -> tuple[BackendOrFabric, dict[str, Any], Pickl
 
 def _serialize_params(params: dict[str, str]) -> dict[str, str | int | bool | float]:
     new_params = {}
-    bool_keys = ("safe", "suppress", "enable", "disable", "client_side")
+    bool_keys = ("safe", "suppress", "enable", "disable", "client_side", "check_repr")
     # free text, never a number: a secret that merely looks numeric ("20240117", "0042", "1e3", "0") must reach the
     # signer as the text it is - as an int/float it cannot sign at all (hmac wants bytes), "0" would silently switch
     # signing off, and any later str() rendering would identify different spellings ("0042" / "42")
